@@ -39,14 +39,14 @@ def norm_vars(d):
     return out
 
 
-def real_run(prog, rows, agg, fname="p.csv", policy=("collect",), method="collect"):
+def real_run(prog, rows, agg, fname="p.csv", policy=("collect",), method="collect", **kw):
     from . import env, hooks
 
     text = lang.rows_to_text(rows)
     with open(fname, "w", newline="") as f:
         f.write(text)
     ptxt = lang.program_text(prog, fname)
-    c, cap = env.new_csvpath(list(policy))
+    c, cap = env.new_csvpath(list(policy), **kw)
     out = {"text": ptxt, "exc": None, "lines": None}
     with hooks.recording(agg) as rec:
         try:
